@@ -24,7 +24,14 @@ def run(chk):
              "(the local end marker is moved during the cyclic walk)")
     chk.rule("AXIS.mirror", "twin locals for the two axes (bb0minx / bb0miny, originx / originy, ...) read mirrored coordinates; includes the "
              "CLIPPER2_HI_PRECISION variant of GetSegmentIntersectPt")
+    chk.rule("POLY.intersect", "GetSegmentIntersectPt (both precision variants): as a real-number formula the stored point lies on the lines through both "
+             "segments, and 'parallel' is reported iff the cross product of the directions vanishes (identity of polynomial normal forms)")
+    chk.rule("POLY.cross", "CrossProductSign / IsCollinear / ProductsAreEqual compare two products whose difference is identically the cross product "
+             "(pt2-pt1)x(pt3-pt2); portable path: magnitudes and signs of the same factors; 128-bit tail returns sign(ab-cd) / (ab==cd) on every ordering")
+    chk.rule("POLY.measure", "CrossProduct, DotProduct, DistanceSqr, PerpendicDistFromLineSqrd, GetClosestPointOnSegment equal their defining "
+             "real-number formulas (identity of polynomial normal forms; rounding not decided)")
     chk.rule("P.integer-only", "no expression of floating type in the exact predicates; products are formed in __int128 or in uint64 inside Multiply")
+    chk.rule("TYPE.wide-kept", "no 128-bit product is converted to a narrower arithmetic type before it is compared")
     chk.rule("INT64.product", "no product is formed in a signed 64-bit integer type anywhere in the library")
     chk.rule("P.portable-sign", "portable tails: CrossProductSign == sign(sign_ab*|ab| - sign_cd*|cd|) with |.| ordered by (hi, lo); "
              "ProductsAreEqual == (signs equal and magnitudes equal); TriSign == sign")
@@ -34,8 +41,16 @@ def run(chk):
         e3.predicates_integer_only(db, chk, cfg)
         e3.multiply_no_wrap(db, chk, cfg)
         e9.rule_int64_product(db, chk, cfg)
+        nw = e9.rule_wide_kept(db, chk, cfg)
+        if "port" not in cfg.split("+") and nw < 4:
+            from ..extract import AnalysisBroken
+            raise AnalysisBroken("TYPE.wide-kept: only %d conversions of 128-bit values found in configuration %s" % (nw, cfg))
         e3.pip_wrap_rule(db, chk, cfg)
         e3.no_single_precision(db, chk, cfg)
+        from ..engines import e14_poly as e14
+        e14.rule_intersect(db, chk, cfg)
+        e14.rule_cross(db, chk, cfg)
+        e14.rule_measure(db, chk, cfg)
         nax = e3.axis_mirror_rule(db, chk, cfg)
         if nax < (10 if "hi" in cfg.split("+") else 4):
             from ..extract import AnalysisBroken
